@@ -19,7 +19,13 @@ def main():
     is_set = kindname in ('TreeSet', 'Set')
     is_tree = kindname in ('BTree', 'TreeSet')
     leaf, internal = job.get('leaf'), job.get('internal')
-    old = embed.set_sizes([BT, TS], leaf, internal) if leaf else None
+    old = None
+    if leaf and job.get('subclass'):
+        # node sizes set on a subclass before first use (the classes themselves keep their defaults); interior nodes
+        # are then instances of the subclass.  (BTrees.check.check() only knows the package's own types: not called.)
+        cls = type('Sub' + kindname, (cls,), dict(max_leaf_size=leaf, max_internal_size=internal))
+    elif leaf:
+        old = embed.set_sizes([BT, TS], leaf, internal)
     rng = random.Random(job['seed'])
     nk = job['nkeys']
     traces, structs = [], []
@@ -206,7 +212,8 @@ def main():
                                     ctx=[tno, step]))
                 try:
                     t._check()
-                    BC.check(t)
+                    if not job.get('subclass'):
+                        BC.check(t)
                 except Exception as e:
                     structs[-1]['checkfail'] = repr(e)
         traces.append(tr)
